@@ -575,9 +575,11 @@ func execC15(r *sim.Run) {
 		raw := json.RawMessage(raws[i2%len(raws)])
 		v := c15Opt(r, def, raw)
 		c15Run(c, v, c15Opt(r, preDef, json.RawMessage(`"pre"`)), c15Opt(r, true, json.RawMessage(`0`)), any(raw), def, true)
-	case 21, 22, 23, 24, 25, 26, 27, 28, 29:
-		c15Fixture(c, kind-21, s1, s2, i1, i3, preDef)
 	default:
+		if kind >= 21 {
+			c15Fixture(c, kind-21, s1, s2, i1, i3, preDef)
+			return
+		}
 		c.name = "*Option[int] inside struct pointer"
 		type holder struct {
 			P *fp.Option[int] `json:"p"`
